@@ -71,7 +71,7 @@ SEQ_ELEMS = [("u16", ["1u16", "2u16", "3u16"]), ("String", ['"a".to_string()', '
              ("i64", ["-1i64", "5i64"]), ("(u8, u16)", ["(1u8, 2u16)"]), ("i8", ["-3i8", "5i8"]),
              ("u32", ["7u32"]), ("bool", ["true"]), ("i16", ["-2i16"]), ("char", ["'x'"]), ("u64", ["9u64"]),
              ("Option<u8>", ["Some(1u8)"]), ("()", ["()"])]
-SEQ_CONTAINERS = ["Vec<{e}>", "LinkedList<{e}>", "BTreeSet<{e}>", "HashSet<{e}>", "[{e}; 2]", "Streamed<{e}>"]
+SEQ_CONTAINERS = ["Vec<{e}>", "LinkedList<{e}>", "BTreeSet<{e}>", "HashSet<{e}>", "[{e}; 2]", "Streamed<{e}>", "SliceOf<{e}>"]
 PAIR_ELEMS = [("String", "u32", ['("k".to_string(), 1u32)']), ("u8", "String", ['(1u8, "v".to_string())'])]
 PAIR_CONTAINERS = ["Vec<({k}, {v})>", "BTreeMap<{k}, {v}>", "HashMap<{k}, {v}>", "LinkedList<({k}, {v})>"]
 BYTE_CONTAINERS = ["Vec<u8>", "Bytes", "[u8; 4]"]
@@ -85,6 +85,8 @@ def seq_ty(container, elem, samples):
         d = "vec![%s]" % ", ".join(samples[:1])
     elif container.startswith("Streamed"):
         d = "Streamed(vec![%s])" % ", ".join(samples[:1])
+    elif container.startswith("SliceOf"):
+        d = "SliceOf(vec![%s])" % ", ".join(samples[:1])
     else:
         d = "[%s].into_iter().collect()" % ", ".join(samples[:1])
     return Ty(rust, lambda r, d=d: d, kind="seq", elem=(elem, samples))
@@ -575,7 +577,7 @@ def main():
             ctx["nestable"].append(fam)
     out = ["// @generated by gen/families.py seed %d — do not edit" % seed,
            "#![allow(non_camel_case_types, unused_variables, clippy::all)]",
-           "use crate::bridge::{Bridge, Streamed};", "use crate::catalog::{entry, Entry};",
+           "use crate::bridge::{Bridge, SliceOf, Streamed};", "use crate::catalog::{entry, Entry};",
            "use bytes::Bytes;", "use desert_macro::BinaryCodec;", "use model::evo::Families;",
            "use model::ty::*;", "use std::collections::{BTreeMap, BTreeSet, HashMap, HashSet, LinkedList};", ""]
     for fam in fams:
